@@ -104,52 +104,55 @@ theorem prefix_loop_not_fold :
 
 /-! ## the hypotheses of the single-pair theorems -/
 
-/-- One (from, to) pair given by printed full paths `sep + sep.join(names)`, in a tree whose
-sibling names are unique; all three separators are the character `c`; `with_full_path=True`;
+/-- One (from, to) pair: the to-path is a printed full path `sep + sep.join(names)`, the from-string
+`fs` is any string that addresses the from-node (`FromOK`: a printed full path with
+`with_full_path=True` — `FromOK.full` —, or a partial path / node name matching exactly one node with
+`with_full_path=False` — `FromOK.partial`), in a tree whose
+sibling names are unique; all three separators are the character `c`;
 no merge flag (`delete_children` is a parameter of the statements). `fpar ++ [l]` / `tpar ++ [l]` are the from- and to-address
 below the root (same last name `l`, as `copy_or_shift_logic` requires); `F` is the from-node;
 `k` is the fresh-id counter. -/
-structure PairHyp (cfg : Cfg) (c : Char) (t : Tree) (k : Nat) (fpar tpar : List Str) (l : Str)
-    (F : Tree) : Prop where
+structure PairHyp (cfg : Cfg) (c : Char) (t : Tree) (k : Nat) (fs : Str) (fpar tpar : List Str)
+    (l : Str) (F : Tree) : Prop where
   plain : cfg.Plain c
   mc : cfg.mergeChildren = false
   ml : cfg.mergeLeaves = false
   su : SibUnique t
   fresh : ∀ e ∈ flat t, e.2.1 < k
-  gf : GoodNames c (t.name :: fpar ++ [l])
+  /-- the from-string addresses the node `F` at `fpar ++ [l]` (see `FromOK`) -/
+  from_ : FromOK cfg t fs (fpar ++ [l]) F l
   gt : GoodNames c (t.name :: tpar ++ [l])
-  found : getRel (fpar ++ [l]) t = some F
   /-- the destination does not exist yet (so `overriding` plays no role) -/
   missing : getRel (tpar ++ [l]) t = none
   /-- DESIGN §5: the destination is not inside the subtree that is moved -/
   outside : (fpar ++ [l]).isPrefixOf tpar = false
 
 /-- the call `shift_nodes / copy_nodes (tree, [from], [to])` of the single-pair theorems -/
-def call1 (cfg : Cfg) (c : Char) (t : Tree) (k : Nat) (fp tp : List Str) : Except Err St :=
-  copyOrShift cfg (st0 t k) [(pathStr c t.name fp, some (pathStr c t.name tp))]
+def call1 (cfg : Cfg) (c : Char) (t : Tree) (k : Nat) (fs : Str) (tp : List Str) : Except Err St :=
+  copyOrShift cfg (st0 t k) [(fs, some (pathStr c t.name tp))]
 
 /-! ## plain shift -/
 
 /-- the call succeeds -/
-theorem shift_ok {cfg c t k fpar tpar l F} (h : PairHyp cfg c t k fpar tpar l F)
+theorem shift_ok {cfg c t k fs fpar tpar l F} (h : PairHyp cfg c t k fs fpar tpar l F)
     (hcp : cfg.copy = false) :
-    ∃ st', call1 cfg c t k (fpar ++ [l]) (tpar ++ [l]) = .ok st' := by
+    ∃ st', call1 cfg c t k fs (tpar ++ [l]) = .ok st' := by
   obtain ⟨t', k', hcall, _⟩ := shift_core h.plain hcp h.mc h.ml t k fpar tpar l F h.su h.fresh
-    h.gf h.gt h.found h.missing h.outside
+    fs h.from_ h.gt h.missing h.outside
   exact ⟨_, hcall⟩
 
 /-- path set of the result, for both values of `delete_children`: what is attached is the
 from-node (`stripIf false F = F`) or the bare from-node (`stripIf true F`) -/
-theorem shift_paths_gen {cfg c t k fpar tpar l F} (h : PairHyp cfg c t k fpar tpar l F)
+theorem shift_paths_gen {cfg c t k fs fpar tpar l F} (h : PairHyp cfg c t k fs fpar tpar l F)
     (hcp : cfg.copy = false) {st' : St}
-    (hr : call1 cfg c t k (fpar ++ [l]) (tpar ++ [l]) = .ok st') (q : List Str) :
+    (hr : call1 cfg c t k fs (tpar ++ [l]) = .ok st') (q : List Str) :
     q ∈ paths st'.dst ↔
       (q ∈ paths t ∧ ¬ (fpar ++ [l]) <+: q) ∨
       (∃ r, r ∈ paths (stripIf cfg.deleteChildren F) ∧ q = tpar ++ [l] ++ r) ∨
       q <+: tpar ++ [l] := by
   obtain ⟨t', k', hcall, _, hsu', hmoved, hframe, hmid, hpre⟩ :=
     shift_core h.plain hcp h.mc h.ml t k fpar tpar l F h.su h.fresh
-      h.gf h.gt h.found h.missing h.outside
+      fs h.from_ h.gt h.missing h.outside
   have hst : st' = st0 t' k' := by
     unfold call1 at hr; rw [hcall] at hr; injection hr with hr; exact hr.symm
   subst hst
@@ -213,21 +216,21 @@ theorem shift_paths_gen {cfg c t k fpar tpar l F} (h : PairHyp cfg c t k fpar tp
           exact ⟨xs.reverse, this⟩
 
 /-- `paths' = (paths \ under from) ∪ rebase from to (under from) ∪ prefixes to` -/
-theorem shift_paths {cfg c t k fpar tpar l F} (h : PairHyp cfg c t k fpar tpar l F)
+theorem shift_paths {cfg c t k fs fpar tpar l F} (h : PairHyp cfg c t k fs fpar tpar l F)
     (hcp : cfg.copy = false) (hdc : cfg.deleteChildren = false) {st' : St}
-    (hr : call1 cfg c t k (fpar ++ [l]) (tpar ++ [l]) = .ok st') (q : List Str) :
+    (hr : call1 cfg c t k fs (tpar ++ [l]) = .ok st') (q : List Str) :
     q ∈ paths st'.dst ↔
       (q ∈ paths t ∧ ¬ (fpar ++ [l]) <+: q) ∨
       (∃ r, fpar ++ [l] ++ r ∈ paths t ∧ q = tpar ++ [l] ++ r) ∨
       q <+: tpar ++ [l] := by
   rw [shift_paths_gen h hcp hr q, hdc]
-  simp only [stripIf, Bool.false_eq_true, if_false, mem_paths_sub h.found h.su]
+  simp only [stripIf, Bool.false_eq_true, if_false, mem_paths_sub h.from_.found h.su]
 
 /-- `delete_children=True`: the bare from-node appears at the destination (same object, same
 attributes), its whole old subtree is gone: `paths' = (paths \ under from) ∪ prefixes to` -/
-theorem delete_children_paths {cfg c t k fpar tpar l F} (h : PairHyp cfg c t k fpar tpar l F)
+theorem delete_children_paths {cfg c t k fs fpar tpar l F} (h : PairHyp cfg c t k fs fpar tpar l F)
     (hcp : cfg.copy = false) (hdc : cfg.deleteChildren = true) {st' : St}
-    (hr : call1 cfg c t k (fpar ++ [l]) (tpar ++ [l]) = .ok st') :
+    (hr : call1 cfg c t k fs (tpar ++ [l]) = .ok st') :
     (∀ q, q ∈ paths st'.dst ↔ (q ∈ paths t ∧ ¬ (fpar ++ [l]) <+: q) ∨ q <+: tpar ++ [l]) ∧
     (flat st'.dst).filter (under (tpar ++ [l])) = [(tpar ++ [l], F.id, F.attrs)] := by
   constructor
@@ -245,7 +248,7 @@ theorem delete_children_paths {cfg c t k fpar tpar l F} (h : PairHyp cfg c t k f
       · exact Or.inr (Or.inr h1)
   · obtain ⟨t', k', hcall, _, _, hmoved, _⟩ :=
       shift_core h.plain hcp h.mc h.ml t k fpar tpar l F h.su h.fresh
-        h.gf h.gt h.found h.missing h.outside
+        fs h.from_ h.gt h.missing h.outside
     have hst : st' = st0 t' k' := by
       unfold call1 at hr; rw [hcall] at hr; injection hr with hr; exact hr.symm
     subst hst
@@ -256,14 +259,14 @@ theorem delete_children_paths {cfg c t k fpar tpar l F} (h : PairHyp cfg c t k f
 /-- moved nodes keep their ids — and their attributes, relative paths and order: the entries
 below the destination are exactly the entries of the from-node, re-rooted (`stripIf false F = F`;
 with `delete_children` only the from-node itself) -/
-theorem shift_keeps_ids {cfg c t k fpar tpar l F} (h : PairHyp cfg c t k fpar tpar l F)
+theorem shift_keeps_ids {cfg c t k fs fpar tpar l F} (h : PairHyp cfg c t k fs fpar tpar l F)
     (hcp : cfg.copy = false) {st' : St}
-    (hr : call1 cfg c t k (fpar ++ [l]) (tpar ++ [l]) = .ok st') :
+    (hr : call1 cfg c t k fs (tpar ++ [l]) = .ok st') :
     (flat st'.dst).filter (under (tpar ++ [l]))
       = (flat (stripIf cfg.deleteChildren F)).map (rebase (tpar ++ [l])) := by
   obtain ⟨t', k', hcall, _, _, hmoved, _⟩ :=
     shift_core h.plain hcp h.mc h.ml t k fpar tpar l F h.su h.fresh
-      h.gf h.gt h.found h.missing h.outside
+      fs h.from_ h.gt h.missing h.outside
   have hst : st' = st0 t' k' := by
     unfold call1 at hr; rw [hcall] at hr; injection hr with hr; exact hr.symm
   subst hst
@@ -273,16 +276,16 @@ theorem shift_keeps_ids {cfg c t k fpar tpar l F} (h : PairHyp cfg c t k fpar tp
 old entries outside the from-subtree — same ids, paths, attributes, same (pre-)order, hence the
 same sibling order; whatever else is in the result is a freshly created attribute-less
 intermediate node on the destination's parent path. -/
-theorem shift_frame {cfg c t k fpar tpar l F} (h : PairHyp cfg c t k fpar tpar l F)
+theorem shift_frame {cfg c t k fs fpar tpar l F} (h : PairHyp cfg c t k fs fpar tpar l F)
     (hcp : cfg.copy = false) {st' : St}
-    (hr : call1 cfg c t k (fpar ++ [l]) (tpar ++ [l]) = .ok st') :
+    (hr : call1 cfg c t k fs (tpar ++ [l]) = .ok st') :
     (flat st'.dst).filter (fun e => decide (e.2.1 < k) && !under (tpar ++ [l]) e)
         = (flat t).filter (fun e => !under (fpar ++ [l]) e) ∧
     (∀ e ∈ flat st'.dst, ¬ e.2.1 < k → e.1 <+: tpar ∧ e.2.1 < st'.next ∧ e.2.2 = []) ∧
     st'.src = none ∧ SibUnique st'.dst := by
   obtain ⟨t', k', hcall, _, hsu', _, hframe, hmid, _⟩ :=
     shift_core h.plain hcp h.mc h.ml t k fpar tpar l F h.su h.fresh
-      h.gf h.gt h.found h.missing h.outside
+      fs h.from_ h.gt h.missing h.outside
   have hst : st' = st0 t' k' := by
     unfold call1 at hr; rw [hcall] at hr; injection hr with hr; exact hr.symm
   subst hst
@@ -299,37 +302,38 @@ def exTree : Tree :=
                     .node 4 ['b'] [] []]
 
 /-- shift `/r/a` to `/r/b/n/a` (the intermediate node `n` does not exist) -/
-example : PairHyp (cfgOf false false false false false false true) '/' exTree 5 [] [['b'], ['n']] ['a']
+example : PairHyp (cfgOf false false false false false false true) '/' exTree 5
+    (pathStr '/' ['r'] [['a']]) [] [['b'], ['n']] ['a']
     (.node 1 ['a'] [] [.node 2 ['x'] [(['k'], .int 7)] [], .node 3 ['y'] [] []]) where
-  plain := ⟨rfl, rfl, rfl, rfl⟩
+  plain := ⟨rfl, rfl, rfl⟩
   mc := rfl
   ml := rfl
   su := by decide +kernel
   fresh := by decide +kernel
-  gf := by decide +kernel
+  from_ := FromOK.full ⟨rfl, rfl, rfl⟩ rfl exTree [] ['a'] _ (by decide +kernel) (by decide +kernel)
   gt := by decide +kernel
-  found := by decide +kernel
   missing := by decide +kernel
   outside := by decide +kernel
 
-example : call1 (cfgOf false false false false false false true) '/' exTree 5 [['a']] [['b'], ['n'], ['a']]
+example : call1 (cfgOf false false false false false false true) '/' exTree 5 (pathStr '/' ['r'] [['a']])
+    [['b'], ['n'], ['a']]
     = .ok (st0 (.node 0 ['r'] [] [.node 4 ['b'] [] [.node 5 ['n'] [] [.node 1 ['a'] [] [
         .node 2 ['x'] [(['k'], .int 7)] [], .node 3 ['y'] [] []]]]]) 6) := by
   decide +kernel
 
 /-! ## plain copy (same tree) -/
 
-theorem copy_ok {cfg c t k fpar tpar l F} (h : PairHyp cfg c t k fpar tpar l F)
+theorem copy_ok {cfg c t k fs fpar tpar l F} (h : PairHyp cfg c t k fs fpar tpar l F)
     (hcp : cfg.copy = true) :
-    ∃ st', call1 cfg c t k (fpar ++ [l]) (tpar ++ [l]) = .ok st' := by
+    ∃ st', call1 cfg c t k fs (tpar ++ [l]) = .ok st' := by
   obtain ⟨t', k', hcall, _⟩ := copy_core h.plain hcp h.mc h.ml none t k fpar tpar l F h.su h.su
-    h.fresh h.gf h.gt h.found h.missing (fun _ => h.outside)
+    h.fresh fs h.from_ h.gt h.missing (fun _ => h.outside)
   exact ⟨_, hcall⟩
 
 /-- what `copy_core` gives for the same-tree call, with the result state named -/
-theorem copy_facts {cfg c t k fpar tpar l F} (h : PairHyp cfg c t k fpar tpar l F)
+theorem copy_facts {cfg c t k fs fpar tpar l F} (h : PairHyp cfg c t k fs fpar tpar l F)
     (hcp : cfg.copy = true) {st' : St}
-    (hr : call1 cfg c t k (fpar ++ [l]) (tpar ++ [l]) = .ok st') :
+    (hr : call1 cfg c t k fs (tpar ++ [l]) = .ok st') :
     st'.src = none ∧ k ≤ st'.next ∧ SibUnique st'.dst ∧
     shape ((flat st'.dst).filter (under (tpar ++ [l])))
         = (shape (flat (stripIf cfg.deleteChildren F))).map (fun x => (tpar ++ [l] ++ x.1, x.2)) ∧
@@ -340,19 +344,18 @@ theorem copy_facts {cfg c t k fpar tpar l F} (h : PairHyp cfg c t k fpar tpar l 
     (∀ q, q.isPrefixOf tpar = true → q ∈ paths st'.dst) := by
   obtain ⟨t', k', hcall, h1, h2, h3, h4, h5, h6, h7⟩ :=
     copy_core h.plain hcp h.mc h.ml none t k fpar tpar l F h.su h.su
-      h.fresh h.gf h.gt h.found h.missing (fun _ => h.outside)
+      h.fresh fs h.from_ h.gt h.missing (fun _ => h.outside)
   have hst : st' = ⟨none, t', k'⟩ := by
     unfold call1 at hr
-    simp only [Option.getD_none] at hcall
     rw [show st0 t k = ⟨none, t, k⟩ from rfl, hcall] at hr
     injection hr with hr; exact hr.symm
   subst hst
   exact ⟨rfl, h1, h2, h3, h4, h5, h6, h7⟩
 
 /-- `paths' = paths ∪ rebase from to (under from) ∪ prefixes to` -/
-theorem copy_paths {cfg c t k fpar tpar l F} (h : PairHyp cfg c t k fpar tpar l F)
+theorem copy_paths {cfg c t k fs fpar tpar l F} (h : PairHyp cfg c t k fs fpar tpar l F)
     (hcp : cfg.copy = true) (hdc : cfg.deleteChildren = false) {st' : St}
-    (hr : call1 cfg c t k (fpar ++ [l]) (tpar ++ [l]) = .ok st') (q : List Str) :
+    (hr : call1 cfg c t k fs (tpar ++ [l]) = .ok st') (q : List Str) :
     q ∈ paths st'.dst ↔
       q ∈ paths t ∨ (∃ r, fpar ++ [l] ++ r ∈ paths t ∧ q = tpar ++ [l] ++ r) ∨ q <+: tpar ++ [l] := by
   obtain ⟨_, _, _, hshape, _, hold, hmid, hpre⟩ := copy_facts h hcp hr
@@ -385,7 +388,7 @@ theorem copy_paths {cfg c t k fpar tpar l F} (h : PairHyp cfg c t k fpar tpar l 
       right; left
       obtain ⟨r, hr'⟩ := isPrefixOf_iff.1 hue
       have : tpar ++ [l] ++ r ∈ paths st'.dst := hr' ▸ hq
-      exact ⟨r, (mem_paths_sub h.found h.su).1 ((hsh r).1 this), hr'⟩
+      exact ⟨r, (mem_paths_sub h.from_.found h.su).1 ((hsh r).1 this), hr'⟩
     | false =>
       by_cases hlt : e.2.1 < k
       · left
@@ -401,7 +404,7 @@ theorem copy_paths {cfg c t k fpar tpar l F} (h : PairHyp cfg c t k fpar tpar l 
     · obtain ⟨e, he, rfl⟩ := List.mem_map.1 hq
       rw [← hold] at he
       exact List.mem_map.2 ⟨e, (List.mem_filter.1 he).1, rfl⟩
-    · exact (hsh r).2 ((mem_paths_sub h.found h.su).2 hr')
+    · exact (hsh r).2 ((mem_paths_sub h.from_.found h.su).2 hr')
     · by_cases hqe : q = tpar ++ [l]
       · subst hqe
         have hF0 : ([] : List Str) ∈ paths F := by rw [paths, flat_eq]; simp
@@ -419,9 +422,9 @@ theorem copy_paths {cfg c t k fpar tpar l F} (h : PairHyp cfg c t k fpar tpar l 
 
 /-- the copy consists of fresh objects (ids from the counter on) and has the origin's relative
 paths, attributes and order (with `delete_children`: of the bare origin node) -/
-theorem copy_fresh_ids {cfg c t k fpar tpar l F} (h : PairHyp cfg c t k fpar tpar l F)
+theorem copy_fresh_ids {cfg c t k fs fpar tpar l F} (h : PairHyp cfg c t k fs fpar tpar l F)
     (hcp : cfg.copy = true) {st' : St}
-    (hr : call1 cfg c t k (fpar ++ [l]) (tpar ++ [l]) = .ok st') :
+    (hr : call1 cfg c t k fs (tpar ++ [l]) = .ok st') :
     (∀ e ∈ (flat st'.dst).filter (under (tpar ++ [l])), k ≤ e.2.1 ∧ e.2.1 < st'.next ∧ e.2.1 ∉ ids t) ∧
     shape ((flat st'.dst).filter (under (tpar ++ [l])))
         = (shape (flat (stripIf cfg.deleteChildren F))).map (fun x => (tpar ++ [l] ++ x.1, x.2)) := by
@@ -435,9 +438,9 @@ theorem copy_fresh_ids {cfg c t k fpar tpar l F} (h : PairHyp cfg c t k fpar tpa
 
 /-- origin untouched — in fact everything that existed is untouched: the old objects of the
 result are exactly the old entries (ids, paths, attributes, order), the origin subtree included -/
-theorem copy_origin_untouched {cfg c t k fpar tpar l F} (h : PairHyp cfg c t k fpar tpar l F)
+theorem copy_origin_untouched {cfg c t k fs fpar tpar l F} (h : PairHyp cfg c t k fs fpar tpar l F)
     (hcp : cfg.copy = true) {st' : St}
-    (hr : call1 cfg c t k (fpar ++ [l]) (tpar ++ [l]) = .ok st') :
+    (hr : call1 cfg c t k fs (tpar ++ [l]) = .ok st') :
     (flat st'.dst).filter (fun e => decide (e.2.1 < k)) = flat t ∧
     (flat st'.dst).filter (under (fpar ++ [l])) = (flat F).map (rebase (fpar ++ [l])) := by
   obtain ⟨_, _, hsu', _, hids, hold, hmid, _⟩ := copy_facts h hcp hr
@@ -466,7 +469,7 @@ theorem copy_origin_untouched {cfg c t k fpar tpar l F} (h : PairHyp cfg c t k f
             cases hsl : s.reverse with
             | nil =>
               simp at hsl; subst hsl; simp at hs
-              have := h.missing; rw [← hs, h.found] at this; cases this
+              have := h.missing; rw [← hs, h.from_.found] at this; cases this
             | cons x xs =>
               have : s = xs.reverse ++ [x] := by rw [← List.reverse_reverse s, hsl]; simp
               subst this
@@ -477,7 +480,7 @@ theorem copy_origin_untouched {cfg c t k fpar tpar l F} (h : PairHyp cfg c t k f
           · -- to <+: from: the destination would exist
             have hp : tpar ++ [l] ∈ paths t := by
               obtain ⟨s, hs⟩ := h1
-              have hfp : fpar ++ [l] ∈ paths t := (mem_paths_iff h.su).2 (by rw [h.found]; rfl)
+              have hfp : fpar ++ [l] ∈ paths t := (mem_paths_iff h.su).2 (by rw [h.from_.found]; rfl)
               rw [← hs] at hfp
               exact prefix_mem_paths h.su hfp
             rw [mem_paths_iff h.su, h.missing] at hp; cases hp
@@ -486,22 +489,23 @@ theorem copy_origin_untouched {cfg c t k fpar tpar l F} (h : PairHyp cfg c t k f
           have := prefix_trans' hue h1
           rw [h.outside] at this; cases this
   rw [hall, hold]
-  exact flat_filter_under h.found h.su
+  exact flat_filter_under h.from_.found h.su
 
-example : PairHyp (cfgOf true false false false false false true) '/' exTree 5 [] [['b'], ['n']] ['a']
+example : PairHyp (cfgOf true false false false false false true) '/' exTree 5
+    (pathStr '/' ['r'] [['a']]) [] [['b'], ['n']] ['a']
     (.node 1 ['a'] [] [.node 2 ['x'] [(['k'], .int 7)] [], .node 3 ['y'] [] []]) where
-  plain := ⟨rfl, rfl, rfl, rfl⟩
+  plain := ⟨rfl, rfl, rfl⟩
   mc := rfl
   ml := rfl
   su := by decide +kernel
   fresh := by decide +kernel
-  gf := by decide +kernel
+  from_ := FromOK.full ⟨rfl, rfl, rfl⟩ rfl exTree [] ['a'] _ (by decide +kernel) (by decide +kernel)
   gt := by decide +kernel
-  found := by decide +kernel
   missing := by decide +kernel
   outside := by decide +kernel
 
-example : call1 (cfgOf true false false false false false true) '/' exTree 5 [['a']] [['b'], ['n'], ['a']]
+example : call1 (cfgOf true false false false false false true) '/' exTree 5 (pathStr '/' ['r'] [['a']])
+    [['b'], ['n'], ['a']]
     = .ok (st0 (.node 0 ['r'] [] [
         .node 1 ['a'] [] [.node 2 ['x'] [(['k'], .int 7)] [], .node 3 ['y'] [] []],
         .node 4 ['b'] [] [.node 5 ['n'] [] [.node 6 ['a'] [] [
@@ -534,16 +538,16 @@ theorem t2t_copy {cfg : Cfg} {c : Char} (hc : cfg.Plain c) (hcp : cfg.copy = tru
     (hmc : cfg.mergeChildren = false) (hml : cfg.mergeLeaves = false) (hdc : cfg.deleteChildren = false)
     (s t : Tree) (k : Nat) (fpar tpar : List Str) (l : Str) (F : Tree)
     (hu : SibUnique t) (hus : SibUnique s) (hk : ∀ e ∈ flat t, e.2.1 < k)
-    (hgf : GoodNames c (s.name :: fpar ++ [l])) (hgt : GoodNames c (t.name :: tpar ++ [l]))
-    (hF : getRel (fpar ++ [l]) s = some F) (hD : getRel (tpar ++ [l]) t = none) :
+    (fs : Str) (hfr : FromOK cfg s fs (fpar ++ [l]) F l) (hgt : GoodNames c (t.name :: tpar ++ [l]))
+    (hD : getRel (tpar ++ [l]) t = none) :
     ∃ t' k', copyOrShift cfg ⟨some s, t, k⟩
-        [(pathStr c s.name (fpar ++ [l]), some (pathStr c t.name (tpar ++ [l])))] = .ok ⟨some s, t', k'⟩ ∧
+        [(fs, some (pathStr c t.name (tpar ++ [l])))] = .ok ⟨some s, t', k'⟩ ∧
       shape ((flat t').filter (under (tpar ++ [l])))
         = (shape (flat F)).map (fun x => (tpar ++ [l] ++ x.1, x.2)) ∧
       (∀ e ∈ (flat t').filter (under (tpar ++ [l])), k ≤ e.2.1 ∧ e.2.1 < k') ∧
       (flat t').filter (fun e => decide (e.2.1 < k)) = flat t := by
   obtain ⟨t', k', hcall, _, _, h3, h4, h5, _, _⟩ :=
-    copy_core hc hcp hmc hml (some s) t k fpar tpar l F hu hus hk hgf hgt hF hD (by simp)
+    copy_core hc hcp hmc hml (some s) t k fpar tpar l F hu hus hk fs hfr hgt hD (by simp)
   rw [hdc] at h3
   exact ⟨t', k', hcall, h3, h4, h5⟩
 
@@ -558,14 +562,14 @@ example : copyOrShift (cfgOf true false false false false false true)
 
 /-- `shift_nodes(tree, [from], [None])`: the result is the old tree without the from-subtree —
 same entries (ids, paths, attributes) in the same order; no object is created. -/
-theorem delete_paths {cfg : Cfg} {c : Char} (hc : cfg.Plain c) (hcp : cfg.copy = false)
+theorem delete_paths {cfg : Cfg} (hcp : cfg.copy = false)
     (hmc : cfg.mergeChildren = false) (hml : cfg.mergeLeaves = false) (hdc : cfg.deleteChildren = false)
-    (t : Tree) (k : Nat) (fp : List Str) (F : Tree) (hne : fp ≠ [])
-    (hu : SibUnique t) (hg : GoodNames c (t.name :: fp)) (hF : getRel fp t = some F) :
-    ∃ t', copyOrShift cfg (st0 t k) [(pathStr c t.name fp, none)] = .ok (st0 t' k) ∧
+    (t : Tree) (k : Nat) (fs : Str) (fp : List Str) (F : Tree) (l : Str) (hne : fp ≠ [])
+    (hu : SibUnique t) (hfr : FromOK cfg t fs fp F l) :
+    ∃ t', copyOrShift cfg (st0 t k) [(fs, none)] = .ok (st0 t' k) ∧
       flat t' = (flat t).filter (fun e => !under fp e) ∧
       (∀ q, q ∈ paths t' ↔ q ∈ paths t ∧ ¬ fp <+: q) := by
-  refine ⟨removeAt fp t, delete_step hc hcp hmc hml hdc t k fp F hg hF, flat_removeAt hne hu, ?_⟩
+  refine ⟨removeAt fp t, delete_step hcp hmc hml hdc t k fs fp F l hfr, flat_removeAt hne hu, ?_⟩
   intro q
   rw [mem_paths_removeAt hne hu]
   constructor
@@ -587,16 +591,16 @@ example : copyOrShift (cfgOf false false false false false false true) (st0 exTr
 
 /-- as `PairHyp`, but the destination exists (node `D`) and `overriding=True`; neither of the two
 nodes lies inside the other -/
-structure OverHyp (cfg : Cfg) (c : Char) (t : Tree) (fpar tpar : List Str) (l : Str)
+structure OverHyp (cfg : Cfg) (c : Char) (t : Tree) (fs : Str) (fpar tpar : List Str) (l : Str)
     (F D : Tree) : Prop where
   plain : cfg.Plain c
   mc : cfg.mergeChildren = false
   ml : cfg.mergeLeaves = false
   ov : cfg.overriding = true
   su : SibUnique t
-  gf : GoodNames c (t.name :: fpar ++ [l])
+  /-- the from-string addresses the node `F` at `fpar ++ [l]` (see `FromOK`) -/
+  from_ : FromOK cfg t fs (fpar ++ [l]) F l
   gt : GoodNames c (t.name :: tpar ++ [l])
-  found : getRel (fpar ++ [l]) t = some F
   dest : getRel (tpar ++ [l]) t = some D
   out1 : (fpar ++ [l]).isPrefixOf (tpar ++ [l]) = false
   out2 : (tpar ++ [l]).isPrefixOf (fpar ++ [l]) = false
@@ -605,9 +609,9 @@ structure OverHyp (cfg : Cfg) (c : Char) (t : Tree) (fpar tpar : List Str) (l : 
 in its place, everything else is untouched and no object is created:
 `flat' = (flat \ under to \ under from)` in the old order, plus the from-node's entries re-rooted
 at `to`. -/
-theorem overriding_paths {cfg c t k fpar tpar l F D} (h : OverHyp cfg c t fpar tpar l F D)
+theorem overriding_paths {cfg c t k fs fpar tpar l F D} (h : OverHyp cfg c t fs fpar tpar l F D)
     (hcp : cfg.copy = false) :
-    ∃ t', call1 cfg c t k (fpar ++ [l]) (tpar ++ [l]) = .ok (st0 t' k) ∧ SibUnique t' ∧
+    ∃ t', call1 cfg c t k fs (tpar ++ [l]) = .ok (st0 t' k) ∧ SibUnique t' ∧
       (flat t').filter (under (tpar ++ [l]))
         = (flat (stripIf cfg.deleteChildren F)).map (rebase (tpar ++ [l])) ∧
       (flat t').filter (fun e => !under (tpar ++ [l]) e)
@@ -616,7 +620,7 @@ theorem overriding_paths {cfg c t k fpar tpar l F D} (h : OverHyp cfg c t fpar t
         (q ∈ paths t ∧ ¬ (tpar ++ [l]) <+: q ∧ ¬ (fpar ++ [l]) <+: q) ∨
         (∃ r, r ∈ paths (stripIf cfg.deleteChildren F) ∧ q = tpar ++ [l] ++ r)) := by
   obtain ⟨t', hcall, hsu', hmoved, hrest⟩ :=
-    over_core h.plain hcp h.mc h.ml h.ov t k fpar tpar l F D h.su h.gf h.gt h.found h.dest h.out1 h.out2
+    over_core h.plain hcp h.mc h.ml h.ov t k fpar tpar l F D h.su fs h.from_ h.gt h.dest h.out1 h.out2
   refine ⟨t', hcall, hsu', hmoved, hrest, fun q => ?_⟩
   constructor
   · intro hq
@@ -665,28 +669,29 @@ def exTree2 : Tree :=
   .node 0 ['r'] [] [.node 1 ['a'] [] [.node 2 ['x'] [] [], .node 3 ['y'] [] []],
                     .node 4 ['b'] [] [.node 5 ['a'] [] [.node 6 ['z'] [] []]]]
 
-example : OverHyp (cfgOf false false true false false false true) '/' exTree2 [] [['b']] ['a']
+example : OverHyp (cfgOf false false true false false false true) '/' exTree2
+    (pathStr '/' ['r'] [['a']]) [] [['b']] ['a']
     (.node 1 ['a'] [] [.node 2 ['x'] [] [], .node 3 ['y'] [] []])
     (.node 5 ['a'] [] [.node 6 ['z'] [] []]) where
-  plain := ⟨rfl, rfl, rfl, rfl⟩
+  plain := ⟨rfl, rfl, rfl⟩
   mc := rfl
   ml := rfl
   ov := rfl
   su := by decide +kernel
-  gf := by decide +kernel
+  from_ := FromOK.full ⟨rfl, rfl, rfl⟩ rfl exTree2 [] ['a'] _ (by decide +kernel) (by decide +kernel)
   gt := by decide +kernel
-  found := by decide +kernel
   dest := by decide +kernel
   out1 := by decide +kernel
   out2 := by decide +kernel
 
-example : call1 (cfgOf false false true false false false true) '/' exTree2 7 [['a']] [['b'], ['a']]
+example : call1 (cfgOf false false true false false false true) '/' exTree2 7 (pathStr '/' ['r'] [['a']]) [['b'], ['a']]
     = .ok (st0 (.node 0 ['r'] [] [.node 4 ['b'] [] [.node 1 ['a'] [] [
         .node 2 ['x'] [] [], .node 3 ['y'] [] []]]]) 7) := by
   decide +kernel
 
 /-- `delete_children` on the example of `PairHyp`: only the bare node arrives -/
-example : call1 (cfgOf false false false false false true true) '/' exTree 5 [['a']] [['b'], ['n'], ['a']]
+example : call1 (cfgOf false false false false false true true) '/' exTree 5 (pathStr '/' ['r'] [['a']])
+    [['b'], ['n'], ['a']]
     = .ok (st0 (.node 0 ['r'] [] [.node 4 ['b'] [] [.node 5 ['n'] [] [.node 1 ['a'] [] []]]]) 6) := by
   decide +kernel
 
@@ -695,16 +700,16 @@ example : call1 (cfgOf false false false false false true true) '/' exTree 5 [['
 
 /-- `merge_children=True`, `overriding=False`, the destination `D` exists; neither node lies
 inside the other; no child of the from-node is called like a child of the destination -/
-structure MergeHyp (cfg : Cfg) (c : Char) (t : Tree) (fpar tpar : List Str) (l : Str)
+structure MergeHyp (cfg : Cfg) (c : Char) (t : Tree) (fs : Str) (fpar tpar : List Str) (l : Str)
     (F D : Tree) : Prop where
   plain : cfg.Plain c
   mc : cfg.mergeChildren = true
   ml : cfg.mergeLeaves = false
   ov : cfg.overriding = false
   su : SibUnique t
-  gf : GoodNames c (t.name :: fpar ++ [l])
+  /-- the from-string addresses the node `F` at `fpar ++ [l]` (see `FromOK`) -/
+  from_ : FromOK cfg t fs (fpar ++ [l]) F l
   gt : GoodNames c (t.name :: tpar ++ [l])
-  found : getRel (fpar ++ [l]) t = some F
   dest : getRel (tpar ++ [l]) t = some D
   out1 : (fpar ++ [l]).isPrefixOf (tpar ++ [l]) = false
   out2 : (tpar ++ [l]).isPrefixOf (fpar ++ [l]) = false
@@ -713,9 +718,9 @@ structure MergeHyp (cfg : Cfg) (c : Char) (t : Tree) (fpar tpar : List Str) (l :
 /-- `merge_children`: every child of the from-node (all of them, with their subtrees, as the same
 objects) appears under the destination, the from-node is gone, everything else — the destination's
 own children included — is untouched, in the old order; no object is created. -/
-theorem merge_children_paths {cfg c t k fpar tpar l F D} (h : MergeHyp cfg c t fpar tpar l F D)
+theorem merge_children_paths {cfg c t k fs fpar tpar l F D} (h : MergeHyp cfg c t fs fpar tpar l F D)
     (hcp : cfg.copy = false) :
-    ∃ t', call1 cfg c t k (fpar ++ [l]) (tpar ++ [l]) = .ok (st0 t' k) ∧ SibUnique t' ∧
+    ∃ t', call1 cfg c t k fs (tpar ++ [l]) = .ok (st0 t' k) ∧ SibUnique t' ∧
       (∀ x ∈ F.children, (flat t').filter (under (tpar ++ [l] ++ [x.name]))
           = (flat (stripIf cfg.deleteChildren x)).map (rebase (tpar ++ [l] ++ [x.name]))) ∧
       (flat t').filter (fun e => !underAny (tpar ++ [l]) F.children e)
@@ -724,7 +729,7 @@ theorem merge_children_paths {cfg c t k fpar tpar l F D} (h : MergeHyp cfg c t f
         (q ∈ paths t ∧ ¬ (fpar ++ [l]) <+: q) ∨
         (∃ x ∈ F.children, ∃ r ∈ paths (stripIf cfg.deleteChildren x), q = tpar ++ [l] ++ [x.name] ++ r)) := by
   obtain ⟨t', hcall, hsu', hkids, hrest⟩ :=
-    merge_children_core h.plain hcp h.mc h.ml h.ov t k fpar tpar l F D h.su h.gf h.gt h.found h.dest
+    merge_children_core h.plain hcp h.mc h.ml h.ov t k fpar tpar l F D h.su fs h.from_ h.gt h.dest
       h.out1 h.out2 h.noclash
   refine ⟨t', hcall, hsu', hkids, hrest, fun q => ?_⟩
   constructor
@@ -771,25 +776,25 @@ def exWide : Tree :=
                       .node 8 ['k','5'] [] []],
     .node 9 ['q'] [] [.node 10 ['m'] [] [.node 11 ['u'] [] []]]]
 
-example : MergeHyp (cfgOf false false false true false false true) '/' exWide [] [['q']] ['m']
+example : MergeHyp (cfgOf false false false true false false true) '/' exWide
+    (pathStr '/' ['r'] [['m']]) [] [['q']] ['m']
     (.node 1 ['m'] [] [.node 2 ['k','0'] [] [], .node 3 ['k','1'] [] [.node 4 ['g'] [] []],
                       .node 5 ['k','2'] [] [], .node 6 ['k','3'] [] [], .node 7 ['k','4'] [] [],
                       .node 8 ['k','5'] [] []])
     (.node 10 ['m'] [] [.node 11 ['u'] [] []]) where
-  plain := ⟨rfl, rfl, rfl, rfl⟩
+  plain := ⟨rfl, rfl, rfl⟩
   mc := rfl
   ml := rfl
   ov := rfl
   su := by decide +kernel
-  gf := by decide +kernel
+  from_ := FromOK.full ⟨rfl, rfl, rfl⟩ rfl exWide [] ['m'] _ (by decide +kernel) (by decide +kernel)
   gt := by decide +kernel
-  found := by decide +kernel
   dest := by decide +kernel
   out1 := by decide +kernel
   out2 := by decide +kernel
   noclash := by decide +kernel
 
-example : call1 (cfgOf false false false true false false true) '/' exWide 12 [['m']] [['q'], ['m']]
+example : call1 (cfgOf false false false true false false true) '/' exWide 12 (pathStr '/' ['r'] [['m']]) [['q'], ['m']]
     = .ok (st0 (.node 0 ['r'] [] [
       .node 9 ['q'] [] [.node 10 ['m'] [] [.node 11 ['u'] [] [],
         .node 2 ['k','0'] [] [], .node 3 ['k','1'] [] [.node 4 ['g'] [] []],
@@ -805,14 +810,13 @@ child called `d` of `P` (the node at `tpar`), between the siblings `before` and 
 from-node `F` is neither inside `D` nor contains it, and — the case the statement excludes — it
 is **not a later sibling of `D` under the same parent** (`notLater`). `nodup`: once `D` is gone
 no other child of `P` is called like the from-node. -/
-structure ReplaceHyp (cfg : Cfg) (c : Char) (t : Tree) (fpar tpar : List Str) (f d : Str)
+structure ReplaceHyp (cfg : Cfg) (c : Char) (t : Tree) (fs : Str) (fpar tpar : List Str) (f d : Str)
     (F D P : Tree) (before after : List Tree) : Prop where
   plain : cfg.Plain c
   dc : cfg.deleteChildren = false
   su : SibUnique t
-  gf : GoodNames c (t.name :: fpar ++ [f])
+  from_ : FromOK cfg t fs (fpar ++ [f]) F f
   gt : GoodNames c (t.name :: tpar ++ [d])
-  found : getRel (fpar ++ [f]) t = some F
   parent : getRel tpar t = some P
   split : P.children = before ++ D :: after
   dname : D.name = d
@@ -825,14 +829,14 @@ structure ReplaceHyp (cfg : Cfg) (c : Char) (t : Tree) (fpar tpar : List Str) (f
 its sibling position: the parent's child list is `X ++ F :: A` where `A` are the later siblings
 and `X` the earlier ones (minus the from-node itself if it was an earlier sibling), each with
 unchanged name, identity and attributes, in unchanged order; no object is created. -/
-theorem replace_keeps_position {cfg c t k fpar tpar f d F D P before after}
-    (h : ReplaceHyp cfg c t fpar tpar f d F D P before after) (hcp : cfg.copy = false) :
+theorem replace_keeps_position {cfg c t k fs fpar tpar f d F D P before after}
+    (h : ReplaceHyp cfg c t fs fpar tpar f d F D P before after) (hcp : cfg.copy = false) :
     ∃ t' P' X A, replaceNodes cfg (st0 t k)
-        [(pathStr c t.name (fpar ++ [f]), some (pathStr c t.name (tpar ++ [d])))] = .ok (st0 t' k) ∧
+        [(fs, some (pathStr c t.name (tpar ++ [d])))] = .ok (st0 t' k) ∧
       getRel tpar t' = some P' ∧ P'.children = X ++ F :: A ∧
       X.map ent = (before.filter (fun x => !(decide (fpar = tpar) && x.name == f))).map ent ∧
       A.map ent = after.map ent :=
-  replace_core h.plain hcp h.dc t k fpar tpar f d F D P before after h.su h.gf h.gt h.found h.parent
+  replace_core h.plain hcp h.dc t k fpar tpar f d F D P before after h.su fs h.from_ h.gt h.parent
     h.split h.dname h.out1 h.out2 h.notLater h.nodup
 
 /-- `a(x, D(q), y(q), F, z)` -/
@@ -841,16 +845,16 @@ def exRep : Tree :=
                     .node 4 ['y'] [] [.node 5 ['q'] [] []], .node 6 ['F'] [] [], .node 7 ['z'] [] []]
 
 /-- non-vacuity: replace `D` by the node `/a/y/q` (not a sibling) -/
-example : ReplaceHyp (cfgOf false false false false false false true) '/' exRep [['y']] [] ['q'] ['D']
+example : ReplaceHyp (cfgOf false false false false false false true) '/' exRep
+    (pathStr '/' ['a'] [['y'], ['q']]) [['y']] [] ['q'] ['D']
     (.node 5 ['q'] [] []) (.node 2 ['D'] [] [.node 3 ['q'] [] []]) exRep
     [.node 1 ['x'] [] []]
     [.node 4 ['y'] [] [.node 5 ['q'] [] []], .node 6 ['F'] [] [], .node 7 ['z'] [] []] where
-  plain := ⟨rfl, rfl, rfl, rfl⟩
+  plain := ⟨rfl, rfl, rfl⟩
   dc := rfl
   su := by decide +kernel
-  gf := by decide +kernel
+  from_ := FromOK.full ⟨rfl, rfl, rfl⟩ rfl exRep [['y']] ['q'] _ (by decide +kernel) (by decide +kernel)
   gt := by decide +kernel
-  found := by decide +kernel
   parent := by decide +kernel
   split := by decide +kernel
   dname := rfl
@@ -889,16 +893,16 @@ example : replaceNodes (cfgOf false false false false false false true) (st0 exR
 /-- `merge_leaves=True`, `overriding=False`, the destination `D` exists, the from-node `F` is not
 itself a leaf; neither node lies inside the other; the leaves of `F` have distinct names, none of
 them the name of a child of `D` (otherwise `Node` refuses the duplicate path) -/
-structure LeavesHyp (cfg : Cfg) (c : Char) (t : Tree) (fpar tpar : List Str) (l : Str)
+structure LeavesHyp (cfg : Cfg) (c : Char) (t : Tree) (fs : Str) (fpar tpar : List Str) (l : Str)
     (F D : Tree) : Prop where
   plain : cfg.Plain c
   mc : cfg.mergeChildren = false
   ml : cfg.mergeLeaves = true
   ov : cfg.overriding = false
   su : SibUnique t
-  gf : GoodNames c (t.name :: fpar ++ [l])
+  /-- the from-string addresses the node `F` at `fpar ++ [l]` (see `FromOK`) -/
+  from_ : FromOK cfg t fs (fpar ++ [l]) F l
   gt : GoodNames c (t.name :: tpar ++ [l])
-  found : getRel (fpar ++ [l]) t = some F
   dest : getRel (tpar ++ [l]) t = some D
   out1 : (fpar ++ [l]).isPrefixOf (tpar ++ [l]) = false
   out2 : (tpar ++ [l]).isPrefixOf (fpar ++ [l]) = false
@@ -910,15 +914,15 @@ structure LeavesHyp (cfg : Cfg) (c : Char) (t : Tree) (fpar tpar : List Str) (l 
 child of the destination; the rest of the tree — the from-node with its inner nodes, the
 destination's own children — is the old tree without those leaves, in the old order; nothing is
 created. -/
-theorem merge_leaves_paths {cfg c t k fpar tpar l F D} (h : LeavesHyp cfg c t fpar tpar l F D)
+theorem merge_leaves_paths {cfg c t k fs fpar tpar l F D} (h : LeavesHyp cfg c t fs fpar tpar l F D)
     (hcp : cfg.copy = false) :
-    ∃ t', call1 cfg c t k (fpar ++ [l]) (tpar ++ [l]) = .ok (st0 t' k) ∧ SibUnique t' ∧
+    ∃ t', call1 cfg c t k fs (tpar ++ [l]) = .ok (st0 t' k) ∧ SibUnique t' ∧
       (∀ pr ∈ leavesRel F, (flat t').filter (under (tpar ++ [l] ++ [pr.2.name]))
           = [(tpar ++ [l] ++ [pr.2.name], pr.2.id, pr.2.attrs)]) ∧
       (flat t').filter (fun e => !underAny (tpar ++ [l]) ((leavesRel F).map (·.2)) e)
         = (flat t).filter
             (fun e => !(((leavesRel F).map (fun pr => fpar ++ [l] ++ pr.1)).any (fun p => under p e))) :=
-  merge_leaves_core h.plain hcp h.mc h.ml h.ov t k fpar tpar l F D h.su h.gf h.gt h.found h.dest
+  merge_leaves_core h.plain hcp h.mc h.ml h.ov t k fpar tpar l F D h.su fs h.from_ h.gt h.dest
     h.out1 h.out2 h.inner h.distinct h.noclash
 
 /-- `r(m(a(x, y), z), q(m(u)))`: leaves `x, y, z` of `/r/m` go under `/r/q/m` -/
@@ -927,17 +931,17 @@ def exLeaves : Tree :=
     .node 1 ['m'] [] [.node 2 ['a'] [] [.node 3 ['x'] [] [], .node 4 ['y'] [] []], .node 5 ['z'] [] []],
     .node 6 ['q'] [] [.node 7 ['m'] [] [.node 8 ['u'] [] []]]]
 
-example : LeavesHyp (cfgOf false false false false true false true) '/' exLeaves [] [['q']] ['m']
+example : LeavesHyp (cfgOf false false false false true false true) '/' exLeaves
+    (pathStr '/' ['r'] [['m']]) [] [['q']] ['m']
     (.node 1 ['m'] [] [.node 2 ['a'] [] [.node 3 ['x'] [] [], .node 4 ['y'] [] []], .node 5 ['z'] [] []])
     (.node 7 ['m'] [] [.node 8 ['u'] [] []]) where
-  plain := ⟨rfl, rfl, rfl, rfl⟩
+  plain := ⟨rfl, rfl, rfl⟩
   mc := rfl
   ml := rfl
   ov := rfl
   su := by decide +kernel
-  gf := by decide +kernel
+  from_ := FromOK.full ⟨rfl, rfl, rfl⟩ rfl exLeaves [] ['m'] _ (by decide +kernel) (by decide +kernel)
   gt := by decide +kernel
-  found := by decide +kernel
   dest := by decide +kernel
   out1 := by decide +kernel
   out2 := by decide +kernel
@@ -945,11 +949,44 @@ example : LeavesHyp (cfgOf false false false false true false true) '/' exLeaves
   distinct := by decide +kernel
   noclash := by decide +kernel
 
-example : call1 (cfgOf false false false false true false true) '/' exLeaves 9 [['m']] [['q'], ['m']]
+example : call1 (cfgOf false false false false true false true) '/' exLeaves 9 (pathStr '/' ['r'] [['m']]) [['q'], ['m']]
     = .ok (st0 (.node 0 ['r'] [] [
       .node 1 ['m'] [] [.node 2 ['a'] [] []],
       .node 6 ['q'] [] [.node 7 ['m'] [] [.node 8 ['u'] [] [], .node 3 ['x'] [] [], .node 4 ['y'] [] [],
         .node 5 ['z'] [] []]]]) 9) := by
   decide +kernel
+
+
+/-! ## Tier 2: partial from-paths
+
+Every single-pair theorem above takes the from-string through `FromOK`; `FromOK.partial` supplies
+it for `with_full_path=False` and a partial path (trailing part of the path, or a node name) whose
+string is the suffix of exactly one node's `path_name` — `find_path`'s semantics. -/
+
+/-- the node name `x` addresses `/r/a/x` in `exTree` (no other `path_name` ends with `x`):
+`shift_nodes(tree, ["x"], ["/r/b/x"])` -/
+example : PairHyp (cfgOf false false false false false false false) '/' exTree 5
+    ['x'] [['a']] [['b']] ['x'] (.node 2 ['x'] [(['k'], .int 7)] []) where
+  plain := ⟨rfl, rfl, rfl⟩
+  mc := rfl
+  ml := rfl
+  su := by decide +kernel
+  fresh := by decide +kernel
+  from_ := FromOK.partial ⟨rfl, rfl, rfl⟩ rfl exTree ['x'] [['a'], ['x']] _ ['x']
+    (by decide +kernel) (by decide +kernel) (by decide +kernel) (by decide +kernel) (by decide +kernel)
+  gt := by decide +kernel
+  missing := by decide +kernel
+  outside := by decide +kernel
+
+example : call1 (cfgOf false false false false false false false) '/' exTree 5 ['x'] [['b'], ['x']]
+    = .ok (st0 (.node 0 ['r'] [] [.node 1 ['a'] [] [.node 3 ['y'] [] []],
+        .node 4 ['b'] [] [.node 2 ['x'] [(['k'], .int 7)] []]]) 5) := by
+  decide +kernel
+
+/-- a partial path with a leading separator: `/a/y` -/
+example : FromOK (cfgOf false false false false false false false) exTree ['/','a','/','y']
+    [['a'], ['y']] (.node 3 ['y'] [] []) ['y'] :=
+  FromOK.partial (c := '/') ⟨rfl, rfl, rfl⟩ rfl exTree _ _ _ _
+    (by decide +kernel) (by decide +kernel) (by decide +kernel) (by decide +kernel) (by decide +kernel)
 
 end C08
